@@ -129,7 +129,7 @@ static void spec_sums(double E, int need_fi, int need_cs, double *delta, double 
     double fi = 0.0, aw = 0.0, cs = 0.0;
     if (need_fi) {
       fi = LEAF_Fi(g_el[i], E);
-      if (fi == 0.0) { *failed = 1; break; }     /* public value 0: failed (or an exact zero, see the module's assumptions) */
+      if (!LEAFOK_Fi(g_el[i], E)) { *failed = 1; break; }   /* f' may legitimately be 0: failure is the error, not the value */
       aw = LEAF_AtomicWeight(g_el[i]);
       if (aw == 0.0) { *failed = 1; break; }
     }
